@@ -1679,4 +1679,15 @@ theorem bayes_reached_of_strong (cfg : Cfg) (hst : cfg.strategy = .bayesian) (n 
     mul_lt_mul_of_pos_right ht hsum
   nlinarith
 
+/-! ## Part 16 — `run_vote` with its exception is the total `runVote` guarded by `runVoteRaises` -/
+
+theorem runVoteE_eq (cfg : Cfg) (voters : List Voter) :
+    runVoteE cfg voters = if runVoteRaises cfg voters then none else some (runVote cfg voters) := by
+  unfold runVoteE aggregateE runVoteRaises runVote thresholdVoteE
+  by_cases hg : activeCount (collect voters) < cfg.minVoters
+  · simp [hg, aggregate]
+  · by_cases hz : voters.length = 0
+    · cases hs : cfg.strategy <;> simp [hg, hz, hs, aggregate]
+    · cases hs : cfg.strategy <;> simp [hg, hz, hs, aggregate]
+
 end Operon.Quorum
